@@ -1459,7 +1459,9 @@ namespace bluetoe {
         if ( !check_handle( input, in_size, output, out_size, handle, index ) )
             return;
 
+        // the permission is checked under the security attributes of this connection, just as a write request would be
         auto write = details::attribute_access_arguments::check_write( this );
+        write.connection_security = client.security_attributes();
         auto rc    = attribute_at( index ).access( write, index );
 
         if ( rc != details::attribute_access_result::success )
